@@ -217,6 +217,16 @@ pub fn base_spec(rng: &mut Rng) -> MftSpec {
     if rng.chance(1, 10) {
         next = this;
     }
+    if rng.chance(1, 10) {
+        // inverted by less than a day: seconds, minutes or hours
+        next = this;
+        match rng.below(3) {
+            0 if next.5 > 0 => next.5 -= 1,
+            1 if next.4 > 0 => next.4 = rng.below(next.4 as u64) as u32,
+            _ if next.3 > 0 => next.3 = rng.below(next.3 as u64) as u32,
+            _ => {}
+        }
+    }
     let nlen = rng.range(1, 4) as usize;
     MftSpec {
         version: if rng.chance(1, 5) { Some(vec![2, 1, 0]) } else { None },
